@@ -45,14 +45,14 @@ func Profile() *world.Profile {
 		Methods: []string{"GET", "HEAD"}, MethodW: []int{5, 1},
 		KnownChain: true,
 	}
-	p.Shapes = make([]int, 16)
+	p.Shapes = make([]int, 24)
 	for i, w := range map[int]int{world.ShCtx: 8, world.ShHTTP: 1, world.ShCtxTok: 2, world.ShCtxReqTok: 1, world.ShCtxStr: 2, world.ShCtxBytes: 1,
-		world.ShCtxErr: 1, world.ShCtxIntStr: 2, world.ShCtxIntErr: 1, world.ShCtxStrErr: 1, world.ShTeapot: 1, world.ShLogger: 1, world.ShRWReqTok: 1, world.ShCtxSvc: 0} {
+		world.ShCtxErr: 1, world.ShCtxIntStr: 2, world.ShCtxIntErr: 1, world.ShCtxStrErr: 1, world.ShTeapot: 1, world.ShLogger: 1, world.ShRWReqTok: 1, world.ShCtxSvc: 0, world.ShInjector: 1, world.ShUserFast: 1, world.ShCtxPtrStr: 1} {
 		p.Shapes[i] = w
 	}
 	p.Ops = make([]int, world.NumOps)
 	for i, w := range map[int]int{world.OpYield: 2, world.OpWriteHeader: 2, world.OpWrite: 3, world.OpFlush: 1, world.OpNext: 5, world.OpNextSwallow: 1,
-		world.OpSetHeader: 1, world.OpStatus: 1, world.OpSeeSvc: 1, world.OpMapExtra: 1, world.OpSeeExtra: 1, world.OpSetCL: 1, world.OpSetCT: 1, world.OpHijack: 1} {
+		world.OpSetHeader: 1, world.OpStatus: 1, world.OpSeeSvc: 1, world.OpMapExtra: 1, world.OpSeeExtra: 1, world.OpSetCL: 1, world.OpSetCT: 1, world.OpHijack: 1, world.OpBefore: 1} {
 		p.Ops[i] = w
 	}
 	return p
